@@ -2450,10 +2450,15 @@ evutil_parse_sockaddr_port(const char *ip_as_string, struct sockaddr *out, int *
 	if (port_part == NULL) {
 		port = 0;
 	} else {
-		port = atoi(port_part);
-		if (port <= 0 || port > 65535) {
+		char *endp;
+		long p;
+		if (!EVUTIL_ISDIGIT_(*port_part))
+			return -1;
+		p = strtol(port_part, &endp, 10);
+		if (*endp || p <= 0 || p > 65535) {
 			return -1;
 		}
+		port = (int)p;
 	}
 
 	if (!addr_part)
